@@ -170,28 +170,41 @@ func TestVerifC13Inputs(t *testing.T) {
 			L.Violation("invalid-redirect-code-still-redirects", map[string]interface{}{"code": code, "status": rec.Code})
 		}
 	}
-	// self redirect is skipped in favour of the next matching host
-	for _, xfp := range []string{"", "https", "http"} {
-		for _, p := range []string{"/", "/a/b"} {
-			r.setTable("route add redir foo.com/ https://foo.com/$path opts \"redirect=301\"\nroute add app / http://" + r.upAddr + "/\n")
-			r.script = script{status: 200, chunks: [][]byte{[]byte("app")}}
-			var hdr [][2]string
-			if xfp != "" {
-				hdr = [][2]string{{"X-Forwarded-Proto", xfp}}
-			}
-			rec, _, hits, err := r.do(rawRequest("GET", p, "foo.com", hdr, nil, false), "10.9.8.7:4711", nil)
-			if err != nil {
-				panic(err)
-			}
-			L.Case()
-			L.NontrivialKey("self" + xfp + p)
-			d := map[string]interface{}{"x_forwarded_proto": xfp, "path": p, "status": rec.Code, "location": rec.Header().Get("Location"), "upstream_hits": hits}
-			if xfp == "https" {
-				if rec.Code != 200 || hits != 1 || rec.Body.String() != "app" {
-					L.Violation("self-redirect-not-skipped", d)
+	// self redirect is skipped in favour of the next matching host: "own scheme, host and
+	// path" - the query plays no part
+	for _, tm := range []string{"https://foo.com/$path", "https://foo.com$path", "https://foo.com/", "https://foo.com/?own=1", "https://$host/$path"} {
+		for _, xfp := range []string{"", "https", "http"} {
+			for _, p := range []string{"/", "/a/b"} {
+				for _, q := range []string{"", "q=1"} {
+					r.setTable("route add redir foo.com/ " + tm + " opts \"redirect=301\"\nroute add app / http://" + r.upAddr + "/\n")
+					r.script = script{status: 200, chunks: [][]byte{[]byte("app")}}
+					var hdr [][2]string
+					if xfp != "" {
+						hdr = [][2]string{{"X-Forwarded-Proto", xfp}}
+					}
+					target := p
+					if q != "" {
+						target += "?" + q
+					}
+					rec, _, hits, err := r.do(rawRequest("GET", target, "foo.com", hdr, nil, false), "10.9.8.7:4711", nil)
+					if err != nil {
+						panic(err)
+					}
+					L.Case()
+					L.NontrivialKey("self" + tm + xfp + target)
+					want, _ := c13Expand(tm, p, q, "foo.com", "", "")
+					wantPath := strings.SplitN(strings.TrimPrefix(want, "https://foo.com"), "?", 2)[0]
+					self := xfp == "https" && wantPath == p
+					d := map[string]interface{}{"template": tm, "x_forwarded_proto": xfp, "request": target, "status": rec.Code, "location": rec.Header().Get("Location"), "upstream_hits": hits, "redirect_would_point_back": self}
+					if self {
+						if rec.Code != 200 || hits != 1 || rec.Body.String() != "app" {
+							L.Violation("self-redirect-not-skipped", d)
+						}
+					} else if rec.Code != 301 || rec.Header().Get("Location") != want || hits != 0 {
+						d["want_location"] = want
+						L.Violation("redirect-to-other-location-not-issued", d)
+					}
 				}
-			} else if rec.Code != 301 || rec.Header().Get("Location") != "https://foo.com"+p || hits != 0 {
-				L.Violation("redirect-to-other-scheme-not-issued", d)
 			}
 		}
 	}
